@@ -62,8 +62,12 @@
      MaxFaults    environment raises per behaviour
      MaxMembers   members per archive / attachments per e-mail
      AllowLocal   whether the generative model explores local absorption inside Extractor/ReadFile
-     Deviations   named as-built gaps: "Cli!PartialStdout" (json.dump streams to stdout; fixed by
-                  proposed_fixes/c01-cli-atomic-stdout.diff)
+     Deviations   named as-built gaps:
+                  "Cli!PartialStdout"   json.dump streams to stdout (fixed by proposed_fixes/c01-cli-atomic-stdout.diff)
+                  "Ole!VectorCountLoop" OPEN finding KF-C01-01: olefile 0.47 (third party, under read_doc / read_ppt /
+                                        read_xls -> ole.get_metadata()) iterates `count` times over a VT_VECTOR
+                                        property whose element type it does not decode, without consuming input:
+                                        a 4-byte count keeps the call busy for up to 2^32 iterations (G_Spin)
      Mutations    hypothetical breakages for the sensitivity runs: "NoWrapper", "WrongLegacyClass",
                   "EntryReraises", "CliNoCatch"                                                   *)
 EXTENDS Naturals, Sequences, FiniteSets, TLC
@@ -97,7 +101,7 @@ VARIABLES stack,    \* frames [t, k, rs, w]; rs = stage at which the exception i
           stdout,   \* "empty" | "result" | "partial"
           stderr,   \* number of diagnostic lines written by the CLI
           exit,     \* NoExit | 0 | 1
-          phase,    \* "init" | "run" | "done"
+          phase,    \* "init" | "run" | "done"  ("spin": as-built deviation Ole!VectorCountLoop only)
           plan, ctl, faults, flog      \* generative part only (constant in trace validation)
 
 core == <<stack, pending, yielded, escaped, out, stdout, stderr, exit, phase>>
@@ -178,7 +182,7 @@ TypeOK ==
     /\ out \in Class \cup {None, "Done"}
     /\ stdout \in {"empty", "result", "partial"}
     /\ exit \in {NoExit, 0, 1}
-    /\ phase \in {"init", "run", "done"}
+    /\ phase \in {"init", "run", "done", "spin"}
     /\ \A i \in 1..Depth : stack[i].t \in LayerTypes
 
 \* whatever leaves an API boundary is a member of the ExtractionError family
@@ -316,6 +320,16 @@ G_PartialPrint ==
     /\ flog' = Append(flog, [d |-> Depth, t |-> "Cli", k |-> "-", st |-> "print", c |-> "Other", y |-> yielded, ml |-> 0])
     /\ UNCHANGED <<yielded, escaped, out, stderr, exit, phase, plan, ctl>>
 
+\* as built (KF-C01-01): a legacy-Office extractor hands a property set with a huge vector count to olefile and
+\* does not come back within any budget proportional to the input: the call neither yields nor raises
+InDomain_KF_C01_01(e) == e.ole /\ e.vec /\ ~e.known /\ e.cntk >= 1024      \* count >= 2^20 elements
+G_Spin ==
+    /\ "Ole!VectorCountLoop" \in Deviations
+    /\ phase = "run" /\ Depth > 0 /\ pending = None
+    /\ Top.t = "Extractor" /\ Top.k \in LegacyKinds /\ C.pc = "try"
+    /\ phase' = "spin"
+    /\ UNCHANGED <<stack, pending, yielded, escaped, out, stdout, stderr, exit, gen>>
+
 G_Unwind ==
     /\ UnwindCore(pending, IF Depth > 1 THEN CallStage(stack[Depth - 1].t) ELSE "try")
     /\ ctl' = Pop(ctl)
@@ -347,7 +361,7 @@ G_Handle ==
           /\ IF "CliNoCatch" \in Mutations /\ pending = "Other" THEN G_Unwind ELSE AbsorbCore /\ SetPc("end")
     /\ UNCHANGED <<plan, faults, flog>>
 
-Next == G_Enter \/ G_Env \/ G_EnvMid \/ G_Step \/ G_PartialPrint \/ G_Handle
+Next == G_Enter \/ G_Env \/ G_EnvMid \/ G_Step \/ G_PartialPrint \/ G_Spin \/ G_Handle
 Spec == Init /\ [][Next]_vars /\ WF_vars(Next)
 
 \* termination OF THE DESIGN: no behaviour runs forever without reaching the end of the call
